@@ -334,7 +334,21 @@ def run(reg, idx, name, timeout_ms=None, seed=0):
         idx = SourceIndex()
         fr = frames.analyze(idx)
         obs = res["obligations"]
-        if name == "fx:iterables":
+        if name.startswith("fx:unit-frames:"):
+            # T6 for this property: every function whose contract the property's units carry or use
+            # must modify only objects it allocates (else its result could depend on, or change,
+            # hidden state, which no pre/postcondition over its arguments can see)
+            prop = name.split(":")[-1]
+            keys = sorted({c.key for c in reg.all() if prop in c.props})
+            for key in keys:
+                for k2, f in sorted(fr.items()):
+                    if k2 == key or k2.startswith(key + ".<locals>"):
+                        bad = f.violations()
+                        obs.append(ob(f"fx/{k2}/modifies-only-objects-it-allocates", not bad, "; ".join(map(repr, bad)),
+                                      {"write_sites": [repr(s_) for s_ in bad]}))
+            if not obs:
+                obs.append(ob(f"fx/{prop}/no-function-under-contract", True, "no pyvc unit for this property"))
+        elif name == "fx:iterables":
             # A parameter typed Iterable may be a one-shot iterator (Chart.from_file hands
             # itertools.islice objects to the section parsers).  pyvc models such a parameter as a
             # sequence; that is sound only if the function consumes it at most once on every path
